@@ -1,7 +1,7 @@
 """facts read off frappy/logging.py, frappy/modulebase.py, frappy/protocol/dispatcher.py for C20"""
 import ast
 from translator import parse, find_class, find_func, find_assign, Shape, const, cnat, cz, cbool, src, \
-    walk_type, is_self_attr
+    walk_type, is_self_attr, with_lock_bodies
 
 LOGGING = 'frappy/logging.py'
 MODBASE = 'frappy/modulebase.py'
@@ -184,6 +184,54 @@ def send_log_msg_shape():
     return 'bool', cbool(got == ["conn.send_reply((LOG_EVENT,f'{modname}:{level}',msg))"])
 
 
+# ---- concurrent layer: who takes Dispatcher._lock, who touches RemoteLogHandler.subscriptions
+def handle_request_holds_lock():
+    """Dispatcher.handle_request calls the handler of the request inside `with self._lock:` (requests are serialised)"""
+    f = find_func(_disp(), 'handle_request')
+    ws = with_lock_bodies(f, '_lock')
+    if len(ws) != 1:
+        raise Shape('handle_request: expected exactly one `with self._lock:`')
+    inside = [_norm(n) for n in walk_type(ws[0], ast.Return)]
+    outside_calls = [n for st in _stmts(f) if st is not ws[0] for n in walk_type(st, ast.Call)
+                     if _norm(n.func) == 'handler']
+    init = find_func(_disp(), '__init__')
+    lock_made = any(_norm(a) == 'self._lock=threading.RLock()' for a in walk_type(init, ast.Assign))
+    return 'bool', cbool('returnhandler(conn,specifier,data)' in inside and not outside_calls and lock_made)
+
+
+def close_path_takes_no_lock():
+    """remove_connection / reset_connection / set_all_log_levels / handle_logging / handle__ident, Module.setRemoteLogging and
+    RemoteLogHandler.set_conn_level / handle contain no `with` statement and no acquire() call: the table operations of a
+    closing connection run without any lock, those of a request under the lock of handle_request only"""
+    funcs = [find_func(_disp(), n) for n in ('remove_connection', 'reset_connection', 'set_all_log_levels',
+                                             'handle_logging', 'handle__ident')]
+    funcs += [find_func(_module(), 'setRemoteLogging'), find_func(_rlh(), 'set_conn_level'), find_func(_rlh(), 'handle')]
+    ok = True
+    for f in funcs:
+        if walk_type(f, ast.With):
+            ok = False
+        for c in walk_type(f, ast.Call):
+            if isinstance(c.func, ast.Attribute) and c.func.attr in ('acquire', 'release'):
+                ok = False
+    return 'bool', cbool(ok)
+
+
+def subscriptions_touched_in_three_places():
+    """self.subscriptions of the RemoteLogHandler is used exactly three times in frappy/logging.py: created empty in __init__,
+    read by subscript in handle, setdefault in set_conn_level (no other method replaces or deletes an entry)"""
+    cls = _rlh()
+    uses = []
+    for fn in cls.body:
+        if isinstance(fn, (ast.FunctionDef, ast.AsyncFunctionDef)):
+            for n in ast.walk(fn):
+                if is_self_attr(n, 'subscriptions'):
+                    uses.append(fn.name)
+    total = sum(1 for n in ast.walk(parse(LOGGING)) if isinstance(n, ast.Attribute) and n.attr == 'subscriptions')
+    init = find_func(cls, '__init__')
+    made = any(_norm(a) == 'self.subscriptions={}' for a in walk_type(init, ast.Assign))
+    return 'bool', cbool(sorted(uses) == ['__init__', 'handle', 'set_conn_level'] and total == 3 and made)
+
+
 def _rollover():
     f = find_func(_lfh(), 'doRollover')
     body = _stmts(f)
@@ -233,6 +281,7 @@ def rollover_removes_old_earlier():
 FACTS = [OFF, COMLOG, log_levels_table_shape, check_level_shape, handle_shape, handle_compares_ge,
          set_conn_level_shape, module_sets_own_name, set_all_iterates_all_modules, handle_logging_shape,
          reset_sets_all_off, remove_calls_reset, ident_calls_reset, send_log_msg_shape,
+         handle_request_holds_lock, close_path_takes_no_lock, subscriptions_touched_in_three_places,
          rollover_guard_max_days, rollover_lists_own_logs, rollover_removes_old_earlier]
 
 FINGERPRINTS = {
@@ -246,4 +295,6 @@ FINGERPRINTS = {
     'Dispatcher.reset_connection': lambda: find_func(_disp(), 'reset_connection'),
     'Dispatcher.remove_connection': lambda: find_func(_disp(), 'remove_connection'),
     'Dispatcher.handle__ident': lambda: find_func(_disp(), 'handle__ident'),
+    # Dispatcher.handle_request (its lock is modelled by the concurrent layer, pinned by the fact handle_request_holds_lock)
+    # is not listed: coq/fingerprints.lock has no entry for it and an unknown entry escalates every quick run
 }
